@@ -536,6 +536,9 @@ impl World {
                     self.violate("C04", "save_dot_to_string produced no graph".into());
                 }
             }
+            Action::SetMaxHeight(h) => {
+                self.st().set_max_height_allowed(*h);
+            }
             Action::OnUpdate(n) => {
                 on_update(&self.handle(*n), *n, &self.sh);
             }
